@@ -66,8 +66,28 @@ func parseRoute(node *treeNode, path string, method string, info *RouteInfo) (pa
 		return 0, errors.New("invalid method " + method + " for routePath: " + path)
 	}
 
+	// check all fragments before creating any node: a rejected route must leave nothing in the tree
 	var paramNameList []string
 	var length, left, right int = len(path), 0, 0
+	for ; right <= length; right++ {
+		if right < length && path[right] != '/' {
+			continue
+		}
+		if right-left < 2 {
+			// skip empty fragment
+		} else if path[left+1:right] == "*" {
+			break
+		} else if path[left+1] == ':' {
+			paramName := path[left+2 : right]
+			if paramName == "" || strutil.SliceContain(paramNameList, paramName) {
+				return 0, errors.New("invalid fragment :" + paramName + " in routePath: " + path)
+			}
+			paramNameList = append(paramNameList, paramName)
+		}
+		left = right
+	}
+
+	paramNameList, left, right = nil, 0, 0
 	for ; right <= length; right++ {
 		if right < length && path[right] != '/' {
 			continue
